@@ -25,7 +25,7 @@ MAT_ROUTES = ["Quaternion.to_DCM", "Quaternion.to_DCM[order=S]", "QuaternionArra
               "DCM.from_quaternion", "DCM.from_quaternion[batch]", "DCM.from_q", "q2R.v1", "q2R.v2",
               "q2R.v1[batch]", "q2R.v2[batch]"]
 OBJ_ROUTES = ["normalize()->routes"]
-PROD_ROUTES = ["Quaternion.product", "Quaternion.__mul__", "Quaternion.__matmul__", "orientation.q_prod", "QuaternionArray.rotate_by"]
+PROD_ROUTES = ["Quaternion.product", "Quaternion.__mul__", "Quaternion.__matmul__", "orientation.q_prod", "QuaternionArray.rotate_by", "orientation.q_conj"]
 ROT_ROUTES = ["Quaternion.rotate(3,)", "Quaternion.rotate(3,N)", "orientation.q_rot"]
 ROUTES = MAT_ROUTES + PROD_ROUTES + ROT_ROUTES + OBJ_ROUTES
 REGIONS = {r: 40 for r in gens.UQ_REGIONS + ["antipodal_pair"]}
@@ -118,6 +118,13 @@ def check(case, ctx):
         if ctx.returned(o4, route=name) and ctx.returned(o5, route=name):
             ctx.le("R(p q) = R(p) R(q)", np.abs(np.asarray(o4.value, float) - np.asarray(o5.value, float) @ R).max(),
                    4 * TOL_R, route=name)
+    # the free conjugate helper, one quaternion and stacks of 1, 2 and 3 rows: the conjugate gives the transpose
+    for lab, arr in (("(4,)", q), ("(1, 4)", q[None]), ("(2, 4)", np.array([q, p])), ("(3, 4)", np.array([q, p, -q]))):
+        out = call(lambda: np.asarray(o.q_conj(arr.copy()), float))
+        if ctx.returned(out, route="orientation.q_conj"):
+            if ctx.ok("q_conj keeps the shape of what it was given", out.value.shape == arr.shape, {"given": list(arr.shape), "got": list(out.value.shape)}, route="orientation.q_conj"):
+                c_ = out.value if arr.ndim == 1 else out.value[0]
+                ctx.le("R(q_conj(q)) = R(q)^T", np.abs(rq.refR(c_ / np.linalg.norm(c_)) - Rq.T).max(), TOL_R, {"form": lab, "q": q, "conj": c_}, route="orientation.q_conj")
     # products
     P = ahrs.Quaternion(p.copy())
     Qo = ahrs.Quaternion(q.copy())
